@@ -1595,7 +1595,11 @@ class Parameters:
             time_consts_round3,
         )
         INCREASE_FEED = True
-        if INCREASE_FEED and interpreted_results_round1 is not None:
+        if (
+            INCREASE_FEED
+            and interpreted_results_round1 is not None
+            and constants_inputs["ADD_MEAT"]  # the offset below only exists if people eat the extra meat
+        ):
             # we are offsetting the increase in meat from round 3 by adding half that increase as increased biofuel,
             # and if we hit biofuel caps, then increased feed. It helps hit the X% minimum fed before feeding biofuel
             # or feed actually be ~X%, rather than X% + (the percent of feed displaced by meat)
